@@ -35,7 +35,8 @@ def base_series(rnd, first, n, none):
     for _ in range(n):
         tmin = rnd.uniform(-12, 18)
         r = {"tavg": "%.1f" % (tmin + rnd.uniform(0, 6)), "tmin": "%.1f" % tmin, "tmax": "%.1f" % (tmin + rnd.uniform(6, 12)),
-             "rh": _num(rnd, 35, 100), "rad": _num(rnd, 0.4, 28, 2), "wind": _num(rnd, 0, 9), "prec": _num(rnd, 0, 30),
+             "rh": _num(rnd, 35, 100), "rad": _num(rnd, 0.4, 28, 2),
+             "wind": rnd.choice(["0", "0.2", "0.49", "0.0", "0.5"]) if rnd.random() < 0.15 else _num(rnd, 0, 9), "prec": _num(rnd, 0, 30),
              "et0": _num(rnd, 0, 5), "verd": _num(rnd, 0, 9), "sund": _num(rnd, 0, 14)}
         if rnd.random() < 0.1:
             r[rnd.choice(["tavg", "rad", "prec", "sund", "verd"])] = none
@@ -201,14 +202,14 @@ def make_file(rnd, layout, idx):
                 body.append(sep.join(toks) + (sep if rnd.random() < 0.08 else ""))
         bd = rnd.random()
         if bd < 0.08:
-            j = rnd.randrange(0, n)
+            j = rnd.randrange(0, len(body))
             body[j] = body[j].replace(ser[j][0].isoformat(), rnd.choice(["1980-13-01", "1981-02-29", "1980-1-1", "80-01-01", "1980/01/01", "x"]), 1)
             c["bad_date"] = True
         elif bd < 0.16 and n > 4:
             del body[rnd.randrange(1, n - 1)]
             c["gap"] = True
         if "sund" in cols and rnd.random() < 0.2:
-            j = rnd.randrange(0, n); t = body[j].split(sep)
+            j = rnd.randrange(0, len(body)); t = body[j].split(sep)
             if len(t) > cols.index("sund"):
                 t[cols.index("sund")] = rnd.choice(["25", "-1", none]); body[j] = sep.join(t); c["sun_range"] = True
     else:
@@ -441,6 +442,21 @@ def oracle_wellformed(cases, results):
             cell = [float.fromhex(x) for x in s["cells"][doy(d) - 1]]
             if [cell[1], cell[2], cell[3]] != [float(r["tmin"]), float(r["tmax"]), float(r["rh"])]:
                 bad.append((c, "line of %s stored as tmin/tmax/rh %r, written %r" % (d, cell[1:4], [r["tmin"], r["tmax"], r["rh"]]))); break
+            # the documented normalisations of the line's own values: wind floor 0.5 whatever the declared measuring height,
+            # PAR = radiation / 2, mm -> cm; the average temperature as written (CZ: mean of tmax and tmin)
+            none_ = float(c["none"])
+            wants = {5: max(float(r["wind"]), 0.5)}
+            if float(r["rad"]) != none_ and (c["layout"] == 0 or "rad" in c.get("cols", ())):
+                wants[4] = float(r["rad"]) / 2
+            if float(r["prec"]) != none_:
+                wants[6] = float(r["prec"]) / 10 * 1.0
+            if c["layout"] == 2:
+                wants[0] = (float(r["tmax"]) + float(r["tmin"])) / 2
+            elif float(r["tavg"]) != none_:
+                wants[0] = float(r["tavg"])
+            wrong = [(wxcol, cell[k], w) for k, w in wants.items() for wxcol in [("tavg", "tmin", "tmax", "rh", "rad", "wind", "prec")[k]] if cell[k] != w]
+            if wrong:
+                bad.append((c, "line of %s: %s stored as %r, the line's value normalised is %r" % ((d,) + wrong[0]))); break
             # optional columns (sunshine hours, saturation deficit, ET0): stored under their own day, unchanged unless the sentinel
             opt = [float.fromhex(x) for x in s["opt"][doy(d) - 1]]
             present = {"sund": c["layout"] == 0 or "sund" in c.get("cols", ()), "verd": c["layout"] == 0 or "verd" in c.get("cols", ()),
